@@ -379,12 +379,10 @@ class JSONVisitor:
                 return
 
             children: Any = [n.TargetIdentifier((line,), [], [node_id])]
-            if isinstance(
-                node.parent, tinydocutils.nodes.TextElement
-            ) and not isinstance(node.parent, tinydocutils.nodes.paragraph):
-                # An inline hyperlink target (_`text`) inside a title, term, line or other
-                # container that may only hold inline nodes: emit the inline flavour of the
-                # target node. (Paragraphs may hold either and keep the plain target.)
+            if isinstance(node.parent, tinydocutils.nodes.TextElement):
+                # An inline hyperlink target (_`text`) sits inside a paragraph, title, term or
+                # other inline container: emit the inline flavour of the target node. This holds
+                # for paragraphs too, whose children giza moves into headings.
                 self.state.append(
                     n.InlineTarget((line,), children, "std", "label", None, None)
                 )
